@@ -104,7 +104,9 @@ def table(ctx, rep):
         want = {("discr(*arg1)", "eq", (ver_idx[0],)), ("*arg1 as Ver.0.insimver", "ne", (ver,))}
         rep.check("R9.1", "reject-conditions", conds == want,
                   "rejection must require exactly: variant Ver and insimver != %s; found %s" % (ver, sorted(conds)), b.loc(), sample={"conditions": sorted(map(list, conds))})
-        rep.check("R9.1", "reject-value", errs[0][1][2] == ("IncompatibleVersion{*arg1 as Ver.0.insimver}",),
+        from mirq import simplify, fmt_origin as _fmt
+        shown = tuple(_fmt(simplify(x)) for x in errs[0][1][3]) if len(errs[0][1]) > 3 and errs[0][1][3] else errs[0][1][2]
+        rep.check("R9.1", "reject-value", shown == ("IncompatibleVersion{*arg1 as Ver.0.insimver}",) or errs[0][1][2] == ("IncompatibleVersion{*arg1 as Ver.0.insimver}",),
                   "the error must carry the received InSim version; found %s" % (errs[0][1][2],), b.loc())
     for n, r in enumerate(sorted(oks)):
         conds = [(c[1], c[2], c[3]) for c in r[0]]
